@@ -16,7 +16,8 @@ for md in sorted(glob.glob(os.path.join(out, 'm*'))):
     m = json.load(open(os.path.join(md, 'meta.json')))
     m['id'] = f'{prop}-{k}'
     m['property_text'] = m.get('property'); m['property'] = prop
-    m['origin'] = 'independent sub-agent given only the property text and a scratch worktree'
+    m["demo_cmd"] = re.sub(r"CARGO_TARGET_DIR=\S+\s+", "", m.get("demo_cmd", ""))
+    m["origin"] = 'independent sub-agent given only the property text and a scratch worktree'
     if 'demo_files' not in m:
         # guess from demo_cmd: "cp demo.rs <worktree>/tests/x.rs && cargo ..."
         cmd = m.get('demo_cmd', '')
